@@ -535,6 +535,76 @@ def stepout_pushed_session(sched):
         ses.close()
 
 
+def segment_walk_program(rng):
+    """A test whose code lies in three blocks of two or three segments, written in a random order at random addresses: the bytes
+    are not emitted in ascending address order. Returns (source, [(line, X, Y) at every instruction boundary of the run])."""
+    names = ["sa", "sb", "sc"][:rng.choice([2, 3])]
+    starts = rng.sample([0x2000, 0x2800, 0x3000, 0x4000, 0x6000, 0xc000], len(names))
+    seg_of = {"main": names[0], "sub": names[1], "tail": names[-1] if rng.random() < 0.5 else names[0]}
+    blocks = {"main": ['.test "a" {', "    ldx #1", "    jsr low", "    inx", "    jmp tail", "}"],
+              "sub": ["low:", "    iny", "    rts"],
+              "tail": ["tail:", "    dex", "    brk"]}
+    order = ["main", "sub", "tail"]
+    rng.shuffle(order)
+    lines = ['.define segment { name = "%s" start = $%04x }' % (n, a) for n, a in zip(names, starts)]
+    at = {}
+    for b in order:
+        lines.append('.segment "%s" {' % seg_of[b])
+        for l in blocks[b]:
+            lines.append(l)
+            at[l.strip()] = len(lines)
+        lines.append("}")
+    walk = [("ldx #1", 0, 0), ("jsr low", 1, 0), ("iny", 1, 0), ("rts", 1, 1), ("inx", 1, 1), ("jmp tail", 2, 1), ("dex", 2, 1), ("brk", 1, 1)]
+    return "\n".join(lines) + "\n", [(at[t], x, y) for t, x, y in walk]
+
+
+def segment_walk_session(job):
+    """Single-steps (or runs from breakpoint to breakpoint) through code that is spread over several segments."""
+    seed, sched = job
+    import random
+    rng = random.Random(seed)
+    src, walk = segment_walk_program(rng)
+    out = {"violations": [], "inconclusive": [], "counts": {}, "cover": {"code-spread-over-segments"}, "sample": None, "evaluations": 1}
+    by_breakpoints = rng.random() < 0.4
+    ses = Session(src, sched, trace=False)
+    try:
+        r = ses.start(sorted({l for l, _, _ in walk}) if by_breakpoints else [walk[0][0]])
+        if not isinstance(r, dict) or not r.get("success"):
+            out["inconclusive"].append("segment-walk session did not start: %r" % (r,))
+            return out
+        for k, (line, x, y) in enumerate(walk):
+            what = ses.wait_stop(10)
+            if what != "stopped":
+                if what == "terminated":
+                    out["violations"].append(("breakpoint-run-over|code-spread-over-segments" if by_breakpoints else "step-wrong|code-spread-over-segments",
+                                              "the test ended before stop %d (line %d)" % (k + 1, line), {"source": src, "by_breakpoints": by_breakpoints}))
+                else:
+                    out["inconclusive"].append("segment walk: no event")
+                return out
+            snap = ses.snapshot()
+            out["evaluations"] += 1
+            if snap is None:
+                out["inconclusive"].append("segment walk: no snapshot")
+                return out
+            if (snap["X"], snap["Y"]) != (x, y):
+                out["violations"].append(("registers-differ-from-reference|code-spread-over-segments", "stop %d: the machine should be at line %d with X=%d Y=%d; the debugger shows %r" % (
+                    k + 1, line, x, y, snap), {"source": src, "snapshot": snap, "by_breakpoints": by_breakpoints}))
+                return out
+            if snap["line"] != line:
+                out["violations"].append(("stale-frame|code-spread-over-segments", "stop %d: the machine is at line %d (X=%d Y=%d) but the reported frame is line %s" % (
+                    k + 1, line, x, y, snap["line"]), {"source": src, "snapshot": snap, "by_breakpoints": by_breakpoints}))
+                return out
+            out["counts"]["segment_walk_stops"] = out["counts"].get("segment_walk_stops", 0) + 1
+            if k + 1 == len(walk):
+                break
+            ses.ev = ses.dap.event_count()
+            ses.dap.request("continue" if by_breakpoints else "stepIn", {"threadId": 1})
+        out["sample"] = {"kind": "segment-walk", "source": src}
+        return out
+    finally:
+        ses.close()
+
+
 def main(tier, seed):
     t0 = time.time()
     rng = rng_for(seed, "c19")
@@ -551,6 +621,11 @@ def main(tier, seed):
         results = list(ex.map(run_session, jobs))
     jobs.append(("self-branch-witness", False, None, "witness"))
     results.append(self_branch_session(None))
+    walks = [(rng.getrandbits(40), [None, "%d,50" % rng.randrange(10 ** 6)][k % 2]) for k in range(12 if tier == "quick" else 200)]
+    with ThreadPoolExecutor(max_workers=12) as ex:
+        for w, o in zip(walks, ex.map(segment_walk_session, walks)):
+            jobs.append(("segment-walk-%d" % w[0], False, w[1], "witness"))
+            results.append(o)
     reps = 3 if tier == "quick" else 30
     for k in range(reps):
         sched = [None, "%d,50" % rng.randrange(10 ** 6), "%d,2000" % rng.randrange(10 ** 6)][k % 3]
@@ -584,6 +659,8 @@ def main(tier, seed):
              "stopped event the frame, registers and flags are read twice 40 ms apart: they must be identical, lie on the reference "
              "trace (CYC is the index), and the frame line must be the line of that instruction; a stop after continue must be the "
              "first breakpoint line ahead (not later, and not later either when a pause is in flight); steps must land on the "
-             "model's successor / return / caller index. Non-trivial = distinct session without inconclusive step.",
+             "model's successor / return / caller index. Segment walks: a test whose code is spread over blocks of several segments "
+             "written in a random order (bytes not emitted in ascending address order) is single-stepped or run from breakpoint to "
+             "breakpoint; frame line, X and Y are known for every stop. Non-trivial = distinct session without inconclusive step.",
         assumptions=["cpu6502.py (incl. its cycle table) is the reference; the calibration sessions compare it with the adapter step by step",
                      "programs avoid self-branches; schedule space is sampled, the phases seen are reported"], min_nontrivial=2)
